@@ -168,8 +168,11 @@ pub fn raw_bytes<S: Source>(s: &mut S) {
     observe!(raw_in_quotes, "some byte is written raw");
     observe!(!raw_in_quotes && printable, "backslash is escaped");
     observe!(raw_in_long_bracket && !printable, "newline allowed in long brackets");
-    claim!(s, !raw_in_quotes || (printable && c != b'\\'), "a byte written raw inside quotes is printable ASCII and not a backslash");
-    claim!(s, !raw_in_long_bracket || printable || c == b'\n', "a byte allowed inside a long bracket is printable ASCII or a line feed (never CR, NUL or a non-ASCII byte)");
+    // (quoted form: the writer pushes raw bytes as `char`s, so a raw byte >= 0x80 would be re-encoded as two bytes; a raw backslash
+    // starts an escape, a raw line break ends the literal. Long brackets: lexers turn CR / CRLF into LF. Other control bytes, e.g. a
+    // tab, are read back unchanged: writing them raw would be unusual but not a violation.)
+    claim!(s, !raw_in_quotes || (c < 0x80 && c != b'\\' && c != b'\n' && c != b'\r'), "a byte written raw inside quotes is ASCII and neither a backslash nor a line break");
+    claim!(s, !raw_in_long_bracket || c != b'\r', "a carriage return is never copied raw into a long bracket string (lexers read it back as a line feed)");
 }
 proof!(c13_raw_bytes => raw_bytes);
 
